@@ -17,6 +17,39 @@ def fresh_name(base='t'):
     return f'{base}!{next(_ctr)}'
 
 
+def _has_bad_pattern_op(t, seen=None):
+    seen = seen if seen is not None else set()
+    stack = [t]
+    while stack:
+        x = stack.pop()
+        if x.get_id() in seen:
+            continue
+        seen.add(x.get_id())
+        if z3.is_app(x):
+            k = x.decl().kind()
+            if k in (z3.Z3_OP_ITE, z3.Z3_OP_AND, z3.Z3_OP_OR, z3.Z3_OP_NOT, z3.Z3_OP_IMPLIES, z3.Z3_OP_EQ,
+                     z3.Z3_OP_LE, z3.Z3_OP_LT, z3.Z3_OP_GE, z3.Z3_OP_GT, z3.Z3_OP_DISTINCT):
+                return True
+        stack.extend(x.children())
+    return False
+
+
+def forall(vs, body, patterns=None):
+    """ForAll with explicit E-matching patterns where they are legal, inferred patterns otherwise."""
+    if patterns:
+        ok = True
+        for p in patterns:
+            terms = p.children() if isinstance(p, z3.PatternRef) else [p]
+            if not isinstance(p, z3.PatternRef) and _has_bad_pattern_op(p):
+                ok = False
+        if ok:
+            try:
+                return z3.ForAll(vs, body, patterns=patterns)
+            except z3.Z3Exception:
+                pass
+    return z3.ForAll(vs, body)
+
+
 # --------------------------------------------------------------------------- sorts
 StrS = z3.DeclareSort('Str')
 _str_consts: dict[str, z3.ExprRef] = {}
@@ -93,13 +126,26 @@ class KRef(Kind):
         return z3.IntSort()
 
 
+_list_sorts: dict[str, object] = {}
+
+
 class KList(Kind):
+    """list / tuple of unknown length: (len, arr: Int -> T).  Only indices in [0, len) matter."""
+
     def __init__(self, elem: Kind):
         self.elem = elem
         self.name = f'List[{elem!r}]'
 
+    def _dt(self):
+        if self.name not in _list_sorts:
+            es = self.elem.sort()
+            dt = z3.Datatype('List_' + str(len(_list_sorts)))
+            dt.declare('mk', ('len', z3.IntSort()), ('arr', z3.ArraySort(z3.IntSort(), es)))
+            _list_sorts[self.name] = dt.create()
+        return _list_sorts[self.name]
+
     def sort(self):
-        return z3.SeqSort(self.elem.sort())
+        return self._dt()
 
 
 _tuple_sorts: dict[str, tuple] = {}
@@ -112,6 +158,7 @@ class KTuple(Kind):
 
     def _dt(self):
         if self.name not in _tuple_sorts:
+            _ = [k.sort() for k in self.items]
             dt = z3.Datatype('Tup_' + str(len(_tuple_sorts)))
             dt.declare('mk', *[(f'f{i}', k.sort()) for i, k in enumerate(self.items)])
             _tuple_sorts[self.name] = dt.create()
@@ -138,6 +185,7 @@ class KDict(Kind):
 
     def _dt(self):
         if self.name not in _dict_sorts:
+            ks, vs = self.key.sort(), self.val.sort()     # create component sorts first (naming)
             dt = z3.Datatype('Dict_' + str(len(_dict_sorts)))
             dt.declare(
                 'mk', ('n', z3.IntSort()),
@@ -286,9 +334,9 @@ def merge(c, a: V, b: V) -> V:
         return V(ka, z3.If(c, a.term, b.term), meta)
     if isinstance(ka, KList) and isinstance(kb, KList):
         if a.meta == 'empty':
-            return merge(c, V(kb, z3.Empty(kb.sort())), b)
+            return merge(c, V(kb, ListOps(kb).empty()), b)
         if b.meta == 'empty':
-            return merge(c, a, V(ka, z3.Empty(ka.sort())))
+            return merge(c, a, V(ka, ListOps(ka).empty()))
     # None vs Ref
     if ka == KNone and isinstance(kb, KRef):
         return V(kb, z3.If(c, z3.IntVal(0), b.term))
@@ -332,8 +380,99 @@ def coerce(v: V, kind: Kind) -> V:
     if isinstance(kind, KTuple) and isinstance(v.kind, KTuple) and len(kind.items) == len(v.kind.items):
         return TupV([coerce(x, k) for x, k in zip(tuple_items(v), kind.items)])
     if isinstance(kind, KList) and isinstance(v.kind, KList) and v.meta == 'empty':
-        return V(kind, z3.Empty(kind.sort()))
+        return V(kind, ListOps(kind).empty())
     raise Unsupported(f'cannot coerce {v.kind!r} to {kind!r}')
+
+
+# ---- list helpers
+class ListOps:
+    _funcs: dict = {}
+    axioms: list = []          # global axioms of the canonical list functions (added to every query)
+
+    def __init__(self, kind: KList):
+        self.kind = kind
+        self.dt = kind.sort()
+        self.len = self.dt.accessor(0, 0)
+        self.arr = self.dt.accessor(0, 1)
+
+    def mk(self, n, arr):
+        return self.dt.mk(n, arr)
+
+    def at(self, x, i):
+        return z3.Select(self.arr(x), i)
+
+    def empty(self):
+        key = ('empty', self.kind.name)
+        if key not in ListOps._funcs:
+            ListOps._funcs[key] = z3.Const('emptyarr_' + self.dt.name(),
+                                           z3.ArraySort(z3.IntSort(), self.kind.elem.sort()))
+        return self.mk(z3.IntVal(0), ListOps._funcs[key])
+
+    def append(self, x, v):
+        return self.mk(self.len(x) + 1, z3.Store(self.arr(x), self.len(x), v))
+
+    def from_items(self, terms):
+        x = self.empty()
+        for t in terms:
+            x = self.append(x, t)
+        return x
+
+    def _fn(self, name, *sorts):
+        key = (name, self.kind.name)
+        if key not in ListOps._funcs:
+            ListOps._funcs[key] = z3.Function(f'{name}_{self.dt.name()}', *sorts)
+            return ListOps._funcs[key], True
+        return ListOps._funcs[key], False
+
+    def concat(self, x, y):
+        L = self.dt
+        f, new = self._fn('concat', L, L, L)
+        if new:
+            a, b = z3.Consts('cx cy', L)
+            i = z3.Int('ci')
+            ListOps.axioms.append(z3.ForAll([a, b], self.len(f(a, b)) == self.len(a) + self.len(b),
+                                            patterns=[f(a, b)]))
+            ListOps.axioms.append(z3.ForAll([a, b, i], z3.And(
+                z3.Implies(z3.And(i >= 0, i < self.len(a)), self.at(f(a, b), i) == self.at(a, i)),
+                z3.Implies(z3.And(i >= self.len(a), i < self.len(a) + self.len(b)),
+                           self.at(f(a, b), i) == self.at(b, i - self.len(a)))),
+                patterns=[self.at(f(a, b), i)]))
+        return f(x, y)
+
+    def slice(self, x, a, n):
+        L = self.dt
+        f, new = self._fn('slice', L, z3.IntSort(), z3.IntSort(), L)
+        if new:
+            l = z3.Const('sx', L)
+            a_, n_, i = z3.Ints('sa sn si')
+            ListOps.axioms.append(z3.ForAll([l, a_, n_], self.len(f(l, a_, n_)) == z3.If(n_ > 0, n_, 0),
+                                            patterns=[f(l, a_, n_)]))
+            ListOps.axioms.append(z3.ForAll([l, a_, n_, i], z3.Implies(
+                z3.And(i >= 0, i < n_), self.at(f(l, a_, n_), i) == self.at(l, a_ + i)),
+                patterns=[self.at(f(l, a_, n_), i)]))
+        return f(x, a, n)
+
+    def contains(self, x, v):
+        L = self.dt
+        f, new = self._fn('contains', L, self.kind.elem.sort(), z3.BoolSort())
+        g, _ = self._fn('indexof', L, self.kind.elem.sort(), z3.IntSort())
+        if new:
+            l = z3.Const('kx', L)
+            e = z3.Const('ke', self.kind.elem.sort())
+            i = z3.Int('ki')
+            ListOps.axioms.append(z3.ForAll([l, e], z3.Implies(f(l, e), z3.And(
+                g(l, e) >= 0, g(l, e) < self.len(l), self.at(l, g(l, e)) == e)), patterns=[f(l, e)]))
+            ListOps.axioms.append(z3.ForAll([l, e, i], z3.Implies(
+                z3.And(i >= 0, i < self.len(l), self.at(l, i) == e), f(l, e)),
+                patterns=[z3.MultiPattern(f(l, e), self.at(l, i))]))
+        return f(x, v)
+
+    def eq(self, x, y):
+        i = z3.Int(fresh_name('li'))
+        return z3.And(self.len(x) == self.len(y),
+                      forall([i], z3.Implies(z3.And(i >= 0, i < self.len(x)),
+                                             self.at(x, i) == self.at(y, i)),
+                             patterns=[self.at(x, i)]))
 
 
 # ---- dict helpers
@@ -377,4 +516,4 @@ class DictOps:
         body = z3.Implies(z3.And(i >= 0, i < self.n(d)),
                           z3.Select(self.idx(d), z3.Select(self.keys(d), i)) == i)
         return [self.n(d) >= 0,
-                z3.ForAll([i], body, patterns=[z3.Select(self.keys(d), i)])]
+                forall([i], body, patterns=[z3.Select(self.keys(d), i)])]
